@@ -31,7 +31,7 @@ def run(ctx):
                 "random values (<= 40 sets, random presence per group, names incl. '' and 2-byte) and FE14Aset_Test.bin, "
                 "validated by TLC. Non-trivial = at least one set with a present slot.")
     binary = ctx.build("release", "mvh_cont")
-    runs, max_sets = ctx.pick((45, 40), (400, 40))
+    runs, max_sets = ctx.pick((45, 40), (1000, 40))
     cc.round_trip_check(ctx, "C17", binary, "MC_ASet", "Gen_ASet.cfg", "Trace_ASet", "aset",
                         ["PickBucket", "PickValue"], ["PickSeed", "StepSeed"], [runs, max_sets],
                         _case, _event,
